@@ -2,7 +2,7 @@
 
 A real directory tree with canary files outside every root (parent directory, prefix-sharing sibling,
 absolute path, a sibling of the PICO-8 carts root sharing its prefix); every path string of <= N atoms
-over {x, lib, ., .., /, sub/, ../, foobar/, ?, ;, <abs>, carts2/, ~, ~/, carts/, byte 0xff raw and as \\255; in strings of <= 3 atoms also ../FOO/, ../LIBS/, <abs CARTS>, ../CARTS2/ - siblings that differ from a root only in letter case} x load-path settings x cart locations,
+over {x, lib, ., .., /, sub/, ../, foobar/, ?, ;, <abs>, carts2/, ~, ~/, carts/, byte 0xff raw and as \\255; in strings of <= 3 atoms also ../FOO/, ../LIBS/, <abs CARTS>, ../CARTS2/ - siblings that differ from a root only in letter case - and the backslash spellings ..\\, \\, sub\\, foobar\\ (raw for #include, escaped inside the Lua string for require)} x load-path settings x cart locations,
 driven through the public entries (`p8tool build --lua main.lua`, `file.from_file(cart.p8)`) with
 builtins.open / io.open wrapped in-process.  Every opened path inside the sandbox must lie under a
 permitted root, else the load must have failed before opening.
@@ -32,9 +32,14 @@ BOUNDS = {'quick': {'atoms': 3}, 'thorough': {'atoms': 5}}
 ATOMS = ['x', 'lib', '.', '..', '/', 'sub/', '../', 'foobar/', '?', ';', '<abs>', 'carts2/', '~', '~/', 'carts/', '\xff', '\\255']
 # directories whose names differ from a permitted root only in letter case (a case-insensitive containment test lets them
 # in): used in strings of <= 3 atoms in both tiers
-CASE_ATOMS = ['../FOO/', '../LIBS/', '<ABS-CARTS>', '../CARTS2/']
-INCLUDE_ONLY = ('carts2/', 'carts/', '<ABS-CARTS>', '../CARTS2/')
-REQUIRE_ONLY = ('\xff', '\\255')     # a byte that is not UTF-8, raw and as a Lua escape
+CASE_ATOMS = ['../FOO/', '../LIBS/', '<ABS-CARTS>', '../CARTS2/',
+              # the Windows spelling of the separator: on this platform a backslash is an ordinary file-name character,
+              # so these strings name (non-existing) files inside the directory - unless something rewrites them
+              '..\\', '\\', 'sub\\', 'foobar\\',
+              # the same inside a Lua string literal (backslash escaped)
+              '..\\\\', '\\\\', 'foobar\\\\']
+INCLUDE_ONLY = ('carts2/', 'carts/', '<ABS-CARTS>', '../CARTS2/', '..\\', '\\', 'sub\\', 'foobar\\')
+REQUIRE_ONLY = ('\xff', '\\255', '..\\\\', '\\\\', 'foobar\\\\')     # a byte that is not UTF-8, raw and as a Lua escape; escaped backslashes
 
 
 class Sandbox(object):
@@ -326,9 +331,9 @@ def strings(tier, sb):
         for combo in itertools.product(ATOMS, repeat=k):
             yield ''.join(sb.atom(a) for a in combo), combo
     # strings of <= 3 atoms that hold at least one case-variant atom
-    allk = ATOMS + CASE_ATOMS
+    core = ['x', 'lib', '..', '/', '../', 'sub/']
     for k in range(1, 4):
-        for combo in itertools.product(allk, repeat=k):
+        for combo in itertools.product((ATOMS if k < 3 else core) + CASE_ATOMS, repeat=k):
             if any(a in CASE_ATOMS for a in combo):
                 yield ''.join(sb.atom(a) for a in combo), combo
 
